@@ -31,6 +31,9 @@ import (
 var (
 	timeout  = 20 * time.Second
 	timeouts = 0
+	maxTimeouts = 3
+	stop     = false
+	trace    *gen.Trace
 	env      *poskeeper.Env
 	P        = new(big.Int).Exp(big.NewInt(10), big.NewInt(18), nil)
 )
@@ -52,6 +55,11 @@ func call(f func() string) string {
 	case <-time.After(timeout):
 		timeouts++
 		env = nil // the stuck goroutine may still hold the keeper
+		if timeouts >= maxTimeouts && trace != nil {
+			// enough evidence of non-termination: stop here instead of leaking more spinning goroutines
+			trace.Line("timeout", false, "# stopped after %d timeouts", timeouts)
+			stop = true
+		}
 		return "TIMEOUT"
 	}
 }
@@ -284,6 +292,7 @@ func main() {
 	codec.UpgradeFeatureMap[codec.RSCALKey] = 1
 	r := gen.New(*seed)
 	t := gen.NewTrace(*out)
+	trace = t
 
 	emitRew := func(p params, relays, s1, s2 *big.Int) {
 		c1, c2 := doReward(p, relays, s1), doReward(p, relays, s2)
@@ -315,18 +324,24 @@ func main() {
 		t.Line("root", true, "root %s 100 => %s", mulP(499, 1, 1), doRoot(mulP(499, 1, 1), 100))
 	case "rows":
 		// exhaustive: every exponent of the 1/100 grid for bins lo..hi
-		for b := *lo; b <= *hi; b += *step {
+		for b := *lo; b <= *hi && !stop; b += *step {
 			vs := make([]string, 101)
 			ok := true
 			for k := int64(0); k <= 100; k++ {
 				vs[k] = doFracPow(mulP(b, 1, 1), expRaw(k))
 				ok = ok && isNum(vs[k])
+				if stop {
+					break
+				}
+			}
+			if stop {
+				break // incomplete row: not emitted
 			}
 			t.Line("fprow", ok, "fprow %d => %s", b, strings.Join(vs, " "))
 		}
 	case "bins":
 		// every bin lo..hi: root, FracPow at exponent 1.00 and one more, reward pair (bin, bin+1)
-		for b := *lo; b <= *hi; b++ {
+		for b := *lo; b <= *hi && !stop; b++ {
 			d := mulP(b, 1, 1)
 			t.Line("root", true, "root %s 100 => %s", d, doRoot(d, 100))
 			for _, k := range []int64{100, int64(1 + r.Intn(99))} {
@@ -340,7 +355,7 @@ func main() {
 			emitRew(p, bi(int64(1+r.Intn(1000))), s1, s2)
 		}
 	default:
-		for i := 0; i < *n; i++ {
+		for i := 0; i < *n && !stop; i++ {
 			switch k := r.Intn(20); {
 			case k < 7:
 				p, _ := genParams(r)
